@@ -159,10 +159,10 @@ def cases(tier, seed):
             yield {"layer": "L", "live": li, "first": first, "depth": 2 if tier == "quick" else 3, "seed": seed}
 
 
-def execute(scn, seed, v6=False, cutter=None, mss=1460, duplex=False, merged=False):
+def execute(scn, seed, v6=False, cutter=None, mss=1460, duplex=False, merged=False, fin="none"):
     conn = scen.tls_conn(scn, seed)
     ends = cap.Ends(3, v6=v6)
-    base = scen.tls_packets(conn, cutter=cutter, mss=mss, merged=merged)
+    base = scen.tls_packets(conn, cutter=cutter, mss=mss, merged=merged, fin=fin)
     if duplex:
         base = scen.duplex_interleave(base, scen.first_app_packet(conn, base))
     pk = cap.stamp(base, {0: ends})
@@ -379,6 +379,10 @@ def run_case(case):
         scn2 = dict(scn, history=[("c", 1000), ("s", 30), ("c", 900), ("s", 1100), ("c", 20), ("s", 700), ("c", 5)])
         one(scn2, {"layer": "D", "class": cname, "capture": "duplex"}, duplex=True, mss=400)
         one(scn2, {"layer": "D", "class": cname, "capture": "duplex_merged"}, duplex=True, mss=333, merged=True)
+        # connection teardown: FIN on the last data segment of each direction / FIN in segments of their own
+        for fin in ("on_last_data", "separate"):
+            one(scn, {"layer": "D", "class": cname, "tcp_fin": fin}, fin=fin, mss=1460)
+            one(scn, {"layer": "D", "class": cname, "tcp_fin": fin, "mss": 100}, fin=fin, mss=100)
         # long histories: 300 records per direction (the per-direction record counter passes 255 and 256; many records per segment)
         scn3 = dict(scn, history=[("c", 3)] * 150 + [("s", 5)] * 300 + [("c", 1)] * 150 + [("s", 0), ("c", 2), ("s", 7)])
         one(scn3, {"layer": "D", "class": cname, "capture": "300 records per direction"}, merged=True, mss=1460)
